@@ -495,7 +495,7 @@ def cv8(prog, rr):
 
 
 # --------------------------------------------------------------------------------------- CV9 / CV13
-@rule("CV9", ["C12"], "hit counters only grow; not-yet-covered sets only shrink; covering a new bin invalidates the cached percentages up the tree",
+@rule("CV9", ["C12", "C13"], "hit counters only grow; not-yet-covered sets only shrink; covering a new bin invalidates the cached percentages up the tree",
       engine="EFF", floor=6)
 def cv9(prog, rr):
     counters = ("hit_l", "hit_ignore_l", "hit_illegal_l")
